@@ -1,7 +1,9 @@
 //! `mon` — runtime monitors for lnx-search/datacake (see /verif/DESIGN.md).
+mod actor;
 mod common;
 mod crdt;
 mod hlc;
+mod hstore;
 mod node;
 mod rpc;
 mod storage;
@@ -11,6 +13,10 @@ use common::Args;
 fn main() {
     let args = Args::parse();
     match args.prop.as_str() {
+        "C02" => actor::c02(&args),
+        "C07" => actor::c07(&args),
+        "C18" => actor::c18(&args),
+        "C19" => actor::c19(&args),
         "C03" => crdt::c03(&args),
         "C04" => crdt::c04(&args),
         "C05" => crdt::c05(&args),
